@@ -3,10 +3,13 @@ import json, os
 import vlib, scriptlib
 
 PROP = "C12"
+WORKERS = int(os.environ.get("VERIF_TLC_WORKERS", "4"))
 
 
 def to_behaviour(i, r):
-    calls = [{"do": "op", "def": r["def"], "as": "h", "ok": True}]
+    # `inv` written on a stack step itself: refused at instantiation (ok = null: the applications are then not
+    # executed) or the inverse instruction of the documented table (the expectations below) - never ignored
+    calls = [{"do": "op", "def": r["def"], "as": "h", "ok": None if r.get("may_refuse") else True}]
     first = True
     for a in r["apps"]:
         c = {"do": "apply", "h": "h", "dir": a["dir"],
@@ -28,12 +31,63 @@ def to_behaviour(i, r):
             c["expect"]["nan_each"] = True
             c["legacy_underflow"] = a.get("legacy_underflow", False)
         calls.append(c)
-    return {"id": i, "ctx": "minimal", "calls": calls, "spec": r}
+    # non-trivial: the expected operands differ from the input, or the program underflows, in some application
+    nt = any((not a.get("exact")) or a["data"] != r["data"] for a in r["apps"])
+    b = {"id": i, "ctx": "minimal", "calls": calls, "spec": {"def": r["def"], "res": r.get("res") or []}, "nt": nt, "patterns": 1}
+    if r.get("res"):
+        b["resources"] = {m["name"]: m["def"] for m in r["res"]}
+    return b
+
+
+def group(records, start=0):
+    """One behaviour per program: the application patterns TLC enumerated for it (F,I / I,F / ...) are replayed one after
+    another on ONE handle, each starting from the initial operands (the first application of a pattern carries `data`).
+    Instantiating once per program instead of once per pattern changes nothing in what is compared."""
+    by = {}
+    for r in records:
+        by.setdefault((r["def"], json.dumps(r.get("res") or [])), []).append(r)
+    out = []
+    for rs in by.values():
+        b = to_behaviour(start + len(out), rs[0])
+        for r in rs[1:]:
+            x = to_behaviour(0, r)
+            b["calls"] += x["calls"][1:]
+            b["nt"] = b["nt"] or x["nt"]
+            b["patterns"] += 1
+        out.append(b)
+    return out
+
+
+def features(spec):
+    """What the program of a behaviour contains beyond plain steps (labels for the report; no influence on verdicts)."""
+    import re
+    res = {m["name"]: m["def"] for m in spec.get("res") or []}
+    texts = [spec["def"]] + list(res.values())
+    steps = [t.strip() for x in texts for t in x.split("|") if t.strip()]
+    mod = lambda t, k: re.search(r"(^|\s)%s(=true)?(\s|$)" % k, t) is not None
+    name = lambda t: [w for w in t.split() if not re.match(r"^(inv|omit_fwd|omit_inv)(=true)?$", w)][0]
+    f = set()
+    for t in steps:
+        n = name(t)
+        if n in ("stack", "push", "pop") and mod(t, "inv"):
+            f.add("inv-on-stack-step")
+        if n in res and mod(t, "inv"):
+            f.add("inverted-macro")
+        if n in res and " | " in res[n]:
+            f.add("pipeline-macro")
+        elif n in res:
+            f.add("alias-macro")
+        if mod(t, "omit_fwd") or mod(t, "omit_inv"):
+            f.add("omit")
+    if len(steps) == 1 and not res:
+        f.add("one-step")
+    return sorted(f)
 
 
 def classify(res, mism, prop=PROP):
     """Sort mismatches into known findings and violations."""
     kf = {k["id"]: k for k in vlib.known_findings(prop)}
+    found = []
     for m in mism:
         b = m["behaviour"]
         fails = m["fails"]
@@ -45,24 +99,56 @@ def classify(res, mism, prop=PROP):
                 f["what"] in ("nan_each", "dishonest_count") and b["calls"][f["call"]].get("legacy_underflow") for f in fails):
             res.add_known("KF-legacy-pop-underflow-masked", kf["KF-legacy-pop-underflow-masked"]["what"])
             continue
-        v = {"suite": "stack", "behaviour": b, "fails": fails, "def": b["calls"][0]["def"],
-             "what": fails[0]["what"], "signature": fails[0]["what"] + ":" + b["calls"][0]["def"]}
-        res.add_violation(v)
+        feat = features(b["spec"]) if b.get("spec", {}).get("def") else []
+        cls = "+".join(feat) or "plain"
+        sig = fails[0]["what"] + ":" + b["calls"][0]["def"]
+        if b.get("resources"):
+            sig += " where " + "; ".join("%s := %s" % kv for kv in sorted(b["resources"].items()))
+        found.append({"suite": "stack", "class": cls, "behaviour": b, "fails": fails, "def": b["calls"][0]["def"],
+                      "resources": b.get("resources"), "what": fails[0]["what"], "signature": sig})
+    # report the smallest program of every class first (replay files are written for the first signatures only)
+    found.sort(key=lambda v: (v["class"].count("+"), " v_" in v["signature"], len(v["signature"]), v["signature"]))
+    by = {}
+    for v in found:
+        by.setdefault(v["class"], []).append(v)
+    if found:
+        res.extra["violations_by_class"] = {k: len(v) for k, v in sorted(by.items())}
+    order = sorted(by, key=lambda k: (k.count("+"), k))
+    i = 0
+    while any(by.values()):
+        for k in order:
+            if by[k]:
+                res.add_violation(by[k].pop(0))
+        i += 1
 
 
 def run(tier, seed):
     res = vlib.Result(PROP, tier, seed, "model_checking")
     vlib.build_harness()
+    # *_mod*: modifiers (inv, omit_fwd, omit_inv; suffix / prefix / =true) written on stack steps and on alias macros over
+    # them, pipelines of one step; *_mac3: macros over pipelines with stack steps (the stack of the expansion)
+    wide = ["MC_C12_mod2q", "MC_C12_mod3", "MC_C12_mac3"] if tier == "quick" else ["MC_C12_mod2", "MC_C12_mod3", "MC_C12_mac3t"]
     cfgs = ["MC_C12_full2", "MC_C12_leg3", "MC_C12_mid3"] if tier == "quick" else ["MC_C12_full2", "MC_C12_leg3", "MC_C12_mid3", "MC_C12_red3", "MC_C12_wide2"]
     behaviours = []
-    for cfg in cfgs:
-        r = vlib.tlc_must_pass(vlib.tlc("MC_C12", cfg, workers=8 if tier == "quick" else 14, timeout=3000))
-        vlib.require_coverage(r, ["Extend", "Start", "StepProbe", "StepStack", "EndApply"])
+    nrec = 0        # TLC-generated behaviours: program x application pattern
+    for cfg in cfgs + wide:
+        r = vlib.tlc_must_pass(vlib.tlc("MC_C12", cfg, workers=WORKERS, timeout=3000))
+        vlib.require_coverage(r, ["Extend", "Start", "StepProbe", "StepStack", "EndApply"] + (["Refuse"] if "_mod" in cfg else []))
         res.add_tlc(r)
         recs = r["records"].get("REPLAY", [])
         if not recs:
             raise vlib.ToolError("no behaviours exported by " + cfg)
-        behaviours += [to_behaviour(len(behaviours) + i, x) for i, x in enumerate(recs)]
+        nrec += len(recs)
+        behaviours += group(recs, len(behaviours))
+    # vacuity: every kind of input the widened model is there for has been generated
+    import collections
+    fc = collections.Counter(f for b in behaviours for f in features(b["spec"]))
+    for need in ("inv-on-stack-step", "inverted-macro", "alias-macro", "pipeline-macro", "omit", "one-step"):
+        if fc[need] == 0:
+            raise vlib.ToolError("vacuous: no program with feature %s" % need)
+    if not any(b["calls"][0]["ok"] is None and len(b["calls"]) > 2 and "data" in b["calls"][1]["expect"] for b in behaviours):
+        raise vlib.ToolError("vacuous: no exact expectation for a program with inv on a stack step")
+    res.extra["programs_by_feature"] = dict(fc)
     # ---- ill-formed sub-commands are rejected at instantiation
     r = vlib.tlc_must_pass(vlib.tlc("MC_C12_wf", "MC_C12_wf", workers=2, timeout=600))
     res.add_tlc(r)
@@ -72,7 +158,8 @@ def run(tier, seed):
     for x in wf:
         behaviours.append({"id": "wf%d" % len(behaviours), "ctx": "minimal", "kind": "wellformed",
                            "calls": [{"do": "op", "def": x["def"], "as": "h", "ok": bool(x["ok"])}],
-                           "spec": {"def": x["def"], "data": [], "apps": []}})
+                           "spec": {"def": x["def"], "res": []}, "nt": False, "patterns": 1})
+    nrec += len(wf)
     if tier == "thorough":
         # long random programs (up to 12 steps) by simulation
         r = vlib.tlc("MC_C12", "MC_C12_sim", workers=1, simulate=20000, depth=80, seed=seed, timeout=1500)
@@ -80,32 +167,42 @@ def run(tier, seed):
             raise vlib.ToolError("simulation failed: %s" % r["error"])
         recs = r["records"].get("REPLAY", [])
         res.extra["simulated_long_programs"] = len(recs)
-        behaviours += [to_behaviour(len(behaviours) + i, x) for i, x in enumerate(recs)]
+        nrec += len(recs)
+        behaviours += group(recs, len(behaviours))
     # ---- the step events of a spread of these programs (stack steps are never dispatched, a failing `stack` step
     # ---- leaves an empty stack, other steps leave the depth alone, count = minimum) against spec/Runtime.tla
     import rtlib
     rtlib.check_harness(res, PROP, [b for b in behaviours if b.get("kind") != "wellformed"], 1500 if tier == "quick" else 15000)
     summary, mism = scriptlib.replay_scripts(PROP, behaviours)
-    res.behaviours_replayed = summary["behaviours"] - len(mism)
+    if summary["behaviours"] != len(behaviours) and not summary.get("not_replayed"):
+        raise vlib.ToolError("replayed %d of %d programs" % (summary["behaviours"], len(behaviours)))
+    # a TLC-generated behaviour is a program with one application pattern; the patterns of a program share one instantiation
+    res.behaviours_replayed = nrec - sum(m["behaviour"].get("patterns", 1) for m in mism) - \
+        sum(b["patterns"] for b in behaviours[len(behaviours) - summary.get("not_replayed", 0):])
     res.evaluations = summary["evaluations"]
+    res.extra["programs_replayed"] = summary["behaviours"]
     # non-trivial: distinct programs whose expected result differs from the input
     # (or that underflow) in at least one application
-    nt = set()
-    for b in behaviours:
-        s = b["spec"]
-        if any((not a["exact"]) or a["data"] != s["data"] for a in s["apps"]):
-            nt.add(s["def"])
-    res.distinct_nontrivial = len(nt)
+    res.distinct_nontrivial = len({(b["spec"]["def"], json.dumps(b["spec"]["res"])) for b in behaviours if b["nt"]})
     res.rule = ("TLC enumerates every program over the configured instruction alphabet up to the length bound, "
-                "times the application patterns (F,I / I,F / F,F / I,I on one handle); each behaviour is replayed "
+                "times the application patterns (F,I / I,F / F,F / I,I on one handle); each behaviour is replayed (the patterns of "
+                "one program one after another on one handle, each from the initial operands) "
                 "into Context::op + apply and compared exactly (count and all four elements of every tuple; after an "
-                "underflow: count 0 and every tuple carries NaN). Non-trivial = distinct program texts whose expected "
+                "underflow: count 0 and every tuple carries NaN). Steps are also written with modifiers (inv, omit_fwd, omit_inv as "
+                "suffix, prefix and =true) on the step itself and on macros over single steps and over pipelines; the expectation "
+                "is that of the plan of the literal expansion (a macro body acts on the stack of the application it is expanded "
+                "into; an inverted step or macro is the inverse instruction(s) of the documented table, in reverse order); `inv` "
+                "written on a stack step itself may also be refused at instantiation. Non-trivial = distinct program texts whose expected "
                 "operands differ from the input or that underflow.")
     res.samples = [{k: b[k] for k in ("calls",)} for b in behaviours[:: max(1, len(behaviours) // 4)]][:4]
     res.exhaustive = True
     res.assumptions = ["probe operators t_add/t_dbl are defined by the harness (harness/src/probes.rs)",
                        "swap on fewer than two stack elements is unspecified and not generated",
-                       "after an underflow only count=0 and 'every tuple carries NaN' are compared"]
+                       "after an underflow only count=0 and 'every tuple carries NaN' are compared",
+                       "`inv` written on a stack/push/pop step itself: Rumination 002 says it is not supported and gives the table of "
+                       "inverse instructions, C03 says a step carrying inv has its directions exchanged - both a refusal at instantiation "
+                       "and the inverse instruction are accepted, ignoring the modifier is not",
+                       "omit_* written inside the body of an alias macro is not generated (C03/C04 territory)"]
     classify(res, mism)
     return res.finish()
 
@@ -118,11 +215,14 @@ def replay(path):
 def selftest(seed):
     """Corrupt one expected value and require the replay to notice."""
     vlib.build_harness()
-    r = vlib.tlc_must_pass(vlib.tlc("MC_C12", "MC_C12_full2", workers=8))
-    recs = r["records"]["REPLAY"][:200]
-    bs = [to_behaviour(i, x) for i, x in enumerate(recs)]
-    tgt = next(b for b in bs if "data" in b["calls"][1]["expect"])
-    tgt["calls"][1]["expect"]["data"][0][0] += 1024
+    r = vlib.tlc_must_pass(vlib.tlc("MC_C12", "MC_C12_full2", workers=WORKERS))
+    bs = group(r["records"]["REPLAY"])
+    # 200 programs, among them one with an exact expectation to corrupt
+    k = next(i for i, b in enumerate(bs) if any("data" in c.get("expect", {}) for c in b["calls"]))
+    bs = bs[max(0, k - 199): k + 1]
+    tgt = bs[-1]
+    call = next(c for c in tgt["calls"] if "data" in c.get("expect", {}))
+    call["expect"]["data"][0][0] += 1024
     summary, mism = scriptlib.replay_scripts(PROP + "-selftest", bs)
     ok = any(m["id"] == tgt["id"] for m in mism)
     print("selftest:", "corruption detected" if ok else "corruption NOT detected")
